@@ -37,7 +37,7 @@ type c17Case struct {
 }
 
 func checkC17(c *Ctx) {
-	c.Level = "model_checking"
+	c.Level = "exploration"
 	var n, nt int64
 	legs := []struct {
 		img, sha, asm, asmSha, gofile, sed string
